@@ -31,6 +31,13 @@ structure Opts where
   trim : Bool := false
   deriving Repr, DecidableEq
 
+/-- outcome of a step of the reader -/
+inductive R (α : Type)
+  | ok (a : α)
+  | err          -- Convert returns an error
+  | unmodelled   -- a path outside the model (text of one kind read as another)
+  deriving Repr, DecidableEq
+
 /-- the arithmetic of the scaled mode and of the degrees option, composed writer∘reader, per scalar:
 `scaled v bt scale offset` = what `parseValue(format(ApplyValue(v, scale, offset)), bt, …, scale, offset)` returns
 (`none` = error), `degrees s` = `ToSemicircles(ParseFloat(format(ToDegrees(s))))` on int32 patterns. -/
@@ -40,6 +47,9 @@ structure Arith where
   /-- a FLOAT cell (float64 bits of the text) read for a float32/float64 field WITH a scale or offset:
   `T(Discard(x, scale, offset))` (`none` = outside the model) -/
   fscaled : Nat → Nat → Nat → Nat → Option Value := fun _ _ _ _ => none
+  /-- `parseValue(text, baseType, profileType == Bool, scale, offset, units)` on the TEXT of a piece as it stands in the CSV
+  (an `Atom.raw`): the text layer, `parseValueT` of FitModel/CsvText.lean -/
+  raw : List Nat → Nat → Bool → Nat → Nat → List Nat → R Value := fun _ _ _ _ _ _ => .unmodelled
 
 /-- the hypothesis under which the converters can round-trip at all: the arithmetic gives every value back -/
 def Arith.id : Arith := { scaled := fun v _ _ _ => some v, degrees := fun s => s, fscaled := fun _ _ _ _ => none }
@@ -51,6 +61,7 @@ inductive Atom
   | str (s : Txt)                              -- any other text
   | scaled (v : Value) (scale offset : Nat)    -- text of float64(v)/scale − offset, v a numeric scalar
   | degrees (semi : Nat)                       -- text of ToDegrees(int32 pattern)
+  | raw (t : List Nat)                         -- the text of a piece as read from a CSV file (text layer: FitModel/CsvText.lean)
   deriving Repr, DecidableEq
 
 structure Cell where
@@ -82,6 +93,9 @@ def unknownTxt : Txt := txt nameUnknown
 def natDigits (n : Nat) : Txt := if n < 10 then [48 + n] else natDigits (n / 10) ++ [48 + n % 10]
 termination_by n
 decreasing_by omega
+
+/-- `strconv.FormatInt(i, 10)` / `FormatUint`: the decimal text of an integer -/
+def intText (i : Int) : Txt := if i < 0 then 45 :: natDigits i.natAbs else natDigits i.natAbs
 
 /-- `formatUnknown(n)` = "unknown(n)" -/
 def formatUnknown (n : Nat) : Txt := unknownTxt ++ txt "(" ++ natDigits n ++ txt ")"
@@ -357,12 +371,6 @@ def columns (o : Opts) (ls : List Line) : List Nat :=
 
 /-! ### CSV → FIT: values (`parseValue`, `packValues`) -/
 
-inductive R (α : Type)
-  | ok (a : α)
-  | err          -- Convert returns an error
-  | unmodelled   -- a path outside the model (text of one kind read as another)
-  deriving Repr, DecidableEq
-
 def btIsUint8 (bt : Nat) : Bool := bt == btEnum || bt == btByte || bt == btUint8 || bt == btUint8z
 
 def inRangeU (w : Nat) (i : Int) : Bool := 0 ≤ i && i < 2 ^ w
@@ -386,8 +394,12 @@ def narrow32 (b : Nat) : Nat :=
 /-- what the text "NaN" parses to before `parseValue` replaces it by the invalid value -/
 def canonNaN64 : Nat := 0x7FF8000000000001
 
+/-- "contains a '.'": what sends a text through the reader's scaled path -/
+def hasDot (s : Txt) : Bool := s.contains 46
+
 /-- `parseValue(piece, baseType, profileType, scale, offset, units)` -/
 def parseAtom (ar : Arith) (a : Atom) (bt : Nat) (isBool : Bool) (scale offset : Nat) (units : Txt) : R Value :=
+  if let .raw t := a then ar.raw t bt isBool scale offset units else
   if units == degreesTxt && bt == btSint32 then
     match a with
     | .degrees s => .ok (.int32 (ar.degrees s))
@@ -407,7 +419,7 @@ def parseAtom (ar : Arith) (a : Atom) (bt : Nat) (isBool : Bool) (scale offset :
     else if bt == btUint32 || bt == btUint32z then (if inRangeU 32 i then .ok (.uint32 i.toNat) else .err)
     else if bt == btSint64 then (if inRangeS 64 i then .ok (.int64 (pat 64 i)) else .err)
     else if bt == btUint64 || bt == btUint64z then (if inRangeU 64 i then .ok (.uint64 i.toNat) else .err)
-    else if bt == btString then .ok (.string (txt (toString i)))
+    else if bt == btString then .ok (.string (intText i))
     else if bt == btFloat32 || bt == btFloat64 then .unmodelled
     else .ok .invalid       -- no case of the switch: the zero Value, no error
   | .flt b =>
@@ -427,14 +439,17 @@ def parseAtom (ar : Arith) (a : Atom) (bt : Nat) (isBool : Bool) (scale offset :
     else if bt == btFloat32 || bt == btFloat64 || btIsUint8 bt || bt == btSint8 || bt == btSint16 || bt == btUint16 || bt == btUint16z ||
       bt == btSint32 || bt == btUint32 || bt == btUint32z || bt == btSint64 || bt == btUint64 || bt == btUint64z then
       (if s.isEmpty then .err else .unmodelled)
+    else if hasDot s then .unmodelled      -- no case of the switch, but a text with a '.' goes through ParseFloat first
     else .ok .invalid
   | .scaled v sc off =>
-    if sc == scale && off == offset then
+    if bt == btString then .unmodelled      -- a string field takes the text as it is, which this piece does not carry
+    else if sc == scale && off == offset then
       match ar.scaled v bt scale offset with
       | some r => .ok r
       | none => .err
     else .unmodelled
   | .degrees _ => .unmodelled
+  | .raw t => ar.raw t bt isBool scale offset units
 
 def mapR {α β : Type} (f : α → R β) : List α → R (List β)
   | [] => .ok []
